@@ -143,11 +143,15 @@ FRONT_LEAN = ["CocoVerif.Model.Peg", "CocoVerif.Model.Front", "CocoVerif.Model.A
               "CocoVerif.Gen.FrontTables"]
 
 B09_TRUSTED = [
-    "modelled, not verified: parsimonious + Python `re` (the front end: text -> parse tree -> object graph is executed by the "
-    "real code and handed to the model as an S-expression dump; harness/dump_ast.py is part of the tie), Python float repr "
-    "(numeric literals are carried by their repr), pydantic/YAML loading of the string-size map, argparse",
-    "no Color BASIC or BASIC09 interpreter exists offline: what BASIC09 makes of emitted text is harness/b09text.py and "
-    "Spec/* (written from the language manuals)",
+    "the transpiler is modelled in two halves: the post-parse half (object graph -> passes -> text -> bundle) receives the real "
+    "front end's object graph as an S-expression dump (harness/dump_ast.py is part of the tie); the front half (Model/Peg.lean on "
+    "Gen/Grammar.lean, Model/Front.lean) is tied by the parse / front / e2e suites where a property lists them",
+    "modelled, not verified: that parsimonious implements the PEG semantics of Model/Peg.lean and Python `re` the regex semantics of "
+    "Rx.ends (compared on every suite text, not proved); Python's float()/repr() for numeric literals (a parameter of the "
+    "front-end model, supplied per request by the harness); pydantic/YAML loading of the string-size map; argparse; input is "
+    "assumed ASCII for `\\d` and str.strip()",
+    "no Color BASIC or BASIC09 interpreter exists offline: what BASIC09 makes of emitted text is harness/b09text.py, b09parse.py, "
+    "exprsem.py, ctlsem.py and Spec/* (written from the language manuals)",
 ]
 
 
@@ -318,15 +322,16 @@ register_b09(
 import suite_forms  # noqa: E402
 
 register_b09(
-    "C04", ["CocoVerif.Props.C04"], OB.c04, lambda c, i, w: None,
+    "C04", ["CocoVerif.Props.C04", "CocoVerif.Props.Front", "CocoVerif.Props.C04Front"], OB.c04, lambda c, i, w: None,
     "forms: every row of Spec.Device.forms (53 device statement / function forms, each presence/absence pattern of optional "
     "operands its own row) instantiated with sentinel operands and with operand expressions (sums, parentheses, signs, NOT, "
     "literals, hex, array elements, built-in calls, string expressions), converted by the real convert(); the RUN call found in "
     "the output must be the spec's procedure with every operand in the position of the parameter the spec names and the "
     "documented default elsewhere; b09: on all suite programs the buffer prologue must be present iff HBUFF is used and the two "
     "speed pokes must become play.octo assignments; distinct = distinct request",
-    extra_suites=[{"name": "forms", "relevant": lambda c: True, "oracle": suite_forms.oracle, "classify": suite_forms.classify}],
-    lean_extra=["CocoVerif.Spec.Device"],
+    extra_suites=[{"name": "forms", "relevant": lambda c: True, "oracle": suite_forms.oracle, "classify": suite_forms.classify}]
+                 + FRONT_SUITES,
+    lean_extra=["CocoVerif.Spec.Device"] + FRONT_LEAN,
     assumptions=["operand values: the oracle compares the operand *texts* the converter writes for the same expression in an assignment"],
 )
 
@@ -353,9 +358,10 @@ PROPS["C02"] = {
 import suite_sem  # noqa: E402
 
 PROPS["C03"] = {
-    "lean": ["CocoVerif.Props.C03"],
-    "lean_extra": B09_LEAN_EXTRA,
-    "suites": [{"name": "sem", "relevant": lambda c: True, "oracle": suite_sem.oracle, "classify": suite_sem.classify}],
+    "lean": ["CocoVerif.Props.C03", "CocoVerif.Props.Front"],
+    "lean_extra": B09_LEAN_EXTRA + FRONT_LEAN,
+    "suites": [{"name": "sem", "relevant": lambda c: True, "oracle": suite_sem.oracle, "classify": suite_sem.classify}]
+              + FRONT_SUITES,
     "search": None,
     "rule": "28 probes + 200 (thorough: 2500) generated programs mixing DIM with 1-3 dimensions and decimal or hex bounds (writes and "
             "reads at the corner indices 0 and N), implicit arrays (index 0..10, read before write, used only inside a function "
@@ -381,7 +387,7 @@ PROPS["C03"] = {
 import suite_layout  # noqa: E402
 
 PROPS["C08"] = {
-    "lean": ["CocoVerif.Props.C08"],
+    "lean": ["CocoVerif.Props.C08", "CocoVerif.Props.Front"],
     "lean_extra": B09_LEAN_EXTRA + ["CocoVerif.Model.Cli"] + FRONT_LEAN,
     "suites": [{"name": "layout", "relevant": lambda c: True, "oracle": suite_layout.oracle, "classify": suite_layout.classify}]
               + FRONT_SUITES,
@@ -402,9 +408,10 @@ PROPS["C08"] = {
 import suite_expr  # noqa: E402
 
 PROPS["C01"] = {
-    "lean": ["CocoVerif.Props.C01"],
-    "lean_extra": B09_LEAN_EXTRA + ["CocoVerif.Spec.Ladder"],
-    "suites": [{"name": "expr", "relevant": lambda c: True, "oracle": suite_expr.oracle, "classify": suite_expr.classify}],
+    "lean": ["CocoVerif.Props.C01", "CocoVerif.Props.C01Front"],
+    "lean_extra": B09_LEAN_EXTRA + ["CocoVerif.Spec.Ladder"] + FRONT_LEAN,
+    "suites": [{"name": "expr", "relevant": lambda c: True, "oracle": suite_expr.oracle, "classify": suite_expr.classify}]
+              + FRONT_SUITES,
     "search": None,
     "rule": "every expression shape with up to 2 (thorough: 3) binary operators from + - * / ^ over the leaves A, B, 2, 3 with unary "
             "minus and parentheses at every position (exhaustive), 60 probes for AND/OR/NOT, comparisons, literal spellings "
@@ -421,9 +428,9 @@ PROPS["C01"] = {
 import suite_names  # noqa: E402
 
 PROPS["C09"] = {
-    "lean": ["CocoVerif.Props.C09"],
-    "lean_extra": ["CocoVerif.Model.Names"],
-    "suites": [{"name": "names", "relevant": lambda c: True, "oracle": suite_names.oracle}],
+    "lean": ["CocoVerif.Props.C09", "CocoVerif.Props.Front"],
+    "lean_extra": ["CocoVerif.Model.Names"] + FRONT_LEAN,
+    "suites": [{"name": "names", "relevant": lambda c: True, "oracle": suite_names.oracle}] + FRONT_SUITES,
     "search": None,
     "rule": "all 26 one-letter names, 120 (thorough: all 936) two-character names and sampled longer names up to 6 characters, in "
             "25 one-line templates covering every position a variable can occupy (assignment target, expression, FOR, NEXT, "
